@@ -410,6 +410,53 @@ def rule_fixpoints(ctx, rep, config="c-lib"):
                     rep.violation("R10", key, "a loop of %s is left by a test that does not depend on the loop's own element (nothing in the condition changes from one "
                                   "iteration to the next): the loop examines the wrong element -- e.g. the enclosing loop's -- instead of each of its own" % fn,
                                   where=t.where(), witness=[t.where()])
+    # "did the scan run to the end?": the test after a loop with a break compares the loop's own counter with the loop's bound
+    ncomp = 0
+    for fn in FUNCS:
+        f = p.fn(fn)
+        for L in f.loops():
+            hdr = f.bmap[L["header"]]
+            t = hdr.term
+            if t is None or len(t.ops) != 3:
+                continue
+            c = f.inst(t.ops[0])
+            if c is None or c.op != "icmp":
+                continue
+            ind = f.inst(strip_int_casts(f, c.ops[0]))
+            if ind is None or ind.op != "phi" or ind.block is not hdr:
+                continue
+            bound = expr.lin(f, c.ops[1], 0, 1)
+            if bound.is_const():
+                continue
+            if not [bn for bn in L["body"] if bn != L["header"] and any(s_ not in L["body"] for s_ in f.bmap[bn].succs)]:
+                continue
+            outs = set(s_ for bn in L["body"] for s_ in f.bmap[bn].succs if s_ not in L["body"])
+            seen, work = set(), [(o, 0) for o in outs]
+            while work:
+                bn, d = work.pop()
+                if bn in seen or d > 2:
+                    continue
+                seen.add(bn)
+                for i in f.bmap[bn].insts:
+                    if i.op != "icmp":
+                        continue
+                    for (x, y) in ((0, 1), (1, 0)):
+                        b_ = expr.lin(f, i.ops[y], 0, 1)
+                        v_ = f.inst(strip_int_casts(f, i.ops[x]))
+                        if set(b_.t.items()) == set(bound.t.items()) and v_ is not None and v_.op == "phi":
+                            ncomp += 1
+                            n += 1
+                            key = "%s/scan-completed-test#%d" % (fn, ncomp)
+                            if v_.id == ind.id and b_.c == bound.c:
+                                rep.ok("R10", key, sample={"loop": t.where(), "test": i.where()})
+                            else:
+                                rep.violation("R10", key, "after the scan loop at %s (left early by a break) the test whether the scan reached the end compares %s with the "
+                                              "bound, not the scan's own counter at its bound: the decision `everything behind is nullable / all siblings are empty' is taken "
+                                              "from the position in the enclosing loop" % (t.where(), "another variable" if v_.id != ind.id else "the counter with another value"),
+                                              where=i.where(), witness=[t.where(), i.where()])
+                for s_ in f.bmap[bn].succs:
+                    work.append((s_, d + 1))
+    rep.floor("R10", "scan-completed tests", ncomp, 3)
     rep.floor("R10", "fixpoint obligations", n, 8)
 
 
